@@ -63,6 +63,7 @@ def gen_other(rs, cfg, same_kind):
         o = copy.deepcopy(cfg)
         o["seed"] = int(rs.integers(1, 10 ** 6))
         o["arms"] = list(cfg["arms"])
+        o["arm_changes_despite_probs"] = True  # a bystander may add / remove arms even with a configured distribution
     else:
         l, p = gen.ALL_COMBOS[int(rs.integers(48))]
         o = gen.gen_cfg(rs, l, p, labels=cfg["labels"], n_arms=len(cfg["arms"]))
